@@ -12,8 +12,8 @@ import Econf.KeyFileOps
   result has the same entries section by section: same section, key, value (absent ≈ empty), quote
   flag, comment lines before, trailing comment; the same sections in order of first appearance.
 
-  Delimiter characters covered by the proof: the non-blank ones (`TagsWF.dns`; `=` and `:` of the
-  property's quantifier).  The blank delimiter (space) is decided by the correspondence check only.
+  Delimiter characters covered by the proof: every text byte other than the quote – `=`, `:` and the
+  space of the property's quantifier included (`TagsWF`).
 -/
 
 set_option linter.unusedSimpArgs false
@@ -71,7 +71,7 @@ def exW : List WEntry :=
 def exKf : KeyFile :=
   { entries := [exW[1].toEntry, exW[0].toEntry, exW[2].toEntry], delim := 0x3d, comment := 0x23 }
 
-theorem exTags : TagsWF 0x3d 0x23 := ⟨by decide, by decide, by decide, by decide, by decide, by decide, by decide, by decide, by decide⟩
+theorem exTags : TagsWF 0x3d 0x23 := ⟨by decide, by decide, by decide, by decide, by decide, by decide, by decide, by decide⟩
 
 theorem exW_wf : ∀ w ∈ exW, w.WF 0x3d 0x23 := by
   intro w hw
@@ -81,7 +81,7 @@ theorem exW_wf : ∀ w ∈ exW, w.WF 0x3d 0x23 := by
     refine ⟨by decide, by decide, by decide, by decide, by decide, ?_⟩
     intro l hl
     simp only [List.mem_singleton] at hl; subst hl
-    exact ⟨by decide, by decide, by decide, by decide, by decide, by decide⟩
+    exact ⟨by decide, by decide, by decide, by decide, by decide, by decide, by decide⟩
   · refine ⟨by decide, by decide, by decide, by decide, ?_, ?_, (by intro t ht; cases ht)⟩
     · show texts _; decide
     · intro t ht; simp only [Option.some.injEq] at ht; subst ht; decide
@@ -255,7 +255,21 @@ example : ∃ st, parseBytes (tagCfg 0x3d 0x23) (writeBytes (applySets (newKeyFi
   · refine ⟨by decide, by decide, [0x76], [{ indent := [0x20], text := [0x6d], trail := [] }], rfl, by decide, by decide, by decide, by decide, by decide, ?_⟩
     intro l hl
     simp only [List.mem_singleton] at hl; subst hl
-    exact ⟨by decide, by decide, by decide, by decide, by decide, by decide⟩
+    exact ⟨by decide, by decide, by decide, by decide, by decide, by decide, by decide⟩
   · exact ⟨by decide, by decide, [0x32], [], rfl, by decide, by decide, by decide, by decide, by decide, (by intro l hl; cases hl)⟩
+
+/-- the same object written with the space as delimiter and `;` as comment character -/
+theorem exTagsSp : TagsWF 0x20 0x3b := ⟨by decide, by decide, by decide, by decide, by decide, by decide, by decide, by decide⟩
+
+example : ∃ st, parseBytes (tagCfg 0x20 0x3b) (writeBytes (applySets (newKeyFile 0x20 0x3b)
+      [(some [0x53], [0x61], [0x31, 0x20, 0x32]), (none, [0x6b], [])])) = .ok st ∧
+    ∀ g, (st.entries.map Entry.content).filter (fun x => x.1 == g) =
+      ((applySets (newKeyFile 0x20 0x3b) [(some [0x53], [0x61], [0x31, 0x20, 0x32]), (none, [0x6b], [])]).entries.map Entry.content).filter (fun x => x.1 == g) := by
+  apply C07_built_roundtrip 0x20 0x3b exTagsSp
+  intro op hop
+  simp only [List.mem_cons, List.not_mem_nil, or_false] at hop
+  rcases hop with rfl | rfl
+  · exact ⟨by decide, by decide, [0x31, 0x20, 0x32], [], rfl, by decide, by decide, by decide, by decide, by decide, (by intro l hl; cases hl)⟩
+  · exact ⟨by decide, by decide, [], [], rfl, by decide, by decide, by decide, by decide, by decide, (by intro l hl; cases hl)⟩
 
 end Econf
